@@ -69,6 +69,7 @@ def shrink(modname, seed, tier, prop, params, choices, signature, budget_s=40.0)
         return _mono() - t0 > budget_s
 
     cur = {k: list(v) for k, v in choices.items()}
+    frozen = set(getattr(scn, 'NO_SHRINK', ()))
     # normalise: replaying the recorded choices must fail the same way
     if not test(cur):
         return None, tries
@@ -76,7 +77,7 @@ def shrink(modname, seed, tier, prop, params, choices, signature, budget_s=40.0)
     for label in sorted(cur, key=lambda k: -len(cur[k])):
         if out_of_time():
             break
-        if not cur[label]:
+        if not cur[label] or label in frozen:
             continue
         cand = dict(cur)
         cand[label] = []
@@ -88,7 +89,7 @@ def shrink(modname, seed, tier, prop, params, choices, signature, budget_s=40.0)
         improved = False
         for label in sorted(cur):
             xs = cur[label]
-            if not xs:
+            if not xs or label in frozen:
                 continue
             # truncate (binary search on the tail)
             lo, hi = 0, len(xs)
